@@ -30,6 +30,15 @@ CLAIMED = {
  "C18": ("exploration", "seeded simulation with a tape of extreme RNG words (0, u64::MAX, 1<<63, ...) at a random 0-30% of draw positions; structural invariants after every add",
          "Arbitrary RNG output is the fault: the invariants (len = min(n,k), items are distinct stream positions, prefix order until k, i(), is_empty, no panic) are checked after every add across and on the phase boundaries, with clear() restarts.",
          "k <= 64 mostly, occasionally 1000 and 10^5; n <= 6*10^4."),
+ "C04": ("exploration", "seeded simulation of the compaction schedule (backlog knob 0..n+1, reads injected between inserts) over 14 arrival patterns; exact sorted multiset as reference; rank error of quantile/cdf against c*W+2/n and centroid count against delta+3",
+         "The statement quantifies over insertion order and over which inserts are compacted together; the simulator owns both (arrival pattern, backlog size, read positions) and checks the exact-multiset oracle at check points and at the end.",
+         "n <= 2*10^4 (quick) / 10^5 (thorough); interval reading of the empirical CDF with eps = 8 ulp * magnitude * (total weight / smallest weight); c = 1 only for iid smooth patterns."),
+ "C15": ("exploration", "seeded simulation of compaction schedules (weighted and unweighted inserts, zero weights, reads) with shape invariants of quantile/cdf checked on a 250-point grid at check points",
+         "Invariant checking at read points of simulated histories: monotonicity, range, end points, repeatability, cdf(quantile(q)) consistency split into generic (tight) and lattice (loose) inputs, empty digest; the compaction schedule decides the centroid layout the invariants are evaluated on.",
+         "Tolerances as granted by the statement (8 ulp * kappa); consistency check skipped when kappa makes it meaningless (counted by a probe)."),
+ "C16": ("exploration", "seeded simulation of insert/insert_weighted histories with every compaction schedule; conservation of count/sum/mean/min/max/is_empty against running totals at every read",
+         "Conservation invariant under every compaction schedule the backlog knob and read positions produce; weights across 12 orders of magnitude, zero weights, deltas from 1.1 (total fusion) to 1000.",
+         "Relative 1e-9 accumulation tolerance scaled by sum |x| w."),
 }
 
 PENDING = {}
